@@ -2,7 +2,12 @@
 
 package actions
 
-import "github.com/google/uuid"
+import (
+	"context"
+	"fmt"
+
+	"github.com/google/uuid"
+)
 
 // PubWaiterCountsForVerif returns, for every subscription id that has an entry
 // in the publish-waiter registry, the number of registered waiters (read-only
@@ -15,4 +20,71 @@ func PubWaiterCountsForVerif() map[uuid.UUID]int {
 		out[id] = len(set)
 	}
 	return out
+}
+
+// PushWindowForVerif drives the adaptive window of one HTTP push connection
+// directly: each Step queues n outcomes of one kind ("fast", "slow", "nack")
+// and lets Receive pick them up as one batch, with no HTTP traffic and no
+// goroutines involved.
+type PushWindowForVerif struct {
+	c *httpPushStreamConn
+}
+
+func NewPushWindowForVerif() *PushWindowForVerif {
+	return &PushWindowForVerif{c: newHttpPushConn("verif", uuid.Nil, "http://verif.invalid/", nil)}
+}
+
+// Step returns the window after the batch, and whether Receive announced a
+// flow control update for it.
+func (p *PushWindowForVerif) Step(ctx context.Context, kind string, n int) (int, bool, error) {
+	q := make(chan uuid.UUID, n)
+	for i := 0; i < n; i++ {
+		q <- uuid.New()
+	}
+	switch kind {
+	case "fast":
+		p.c.fastAckQueue = q
+	case "slow":
+		p.c.slowAckQueue = q
+	case "nack":
+		p.c.nackQueue = q
+	default:
+		return 0, false, fmt.Errorf("unknown kind %q", kind)
+	}
+	req, err := p.c.Receive(ctx)
+	if err != nil {
+		return 0, false, err
+	}
+	p.c.mu.Lock()
+	defer p.c.mu.Unlock()
+	return p.c.maxMessages, req.FlowControl != nil, nil
+}
+
+// Load queues outcomes of all three kinds at once (the ids are returned, per
+// kind) without calling Receive; Drain then calls Receive once and returns
+// what it reported.
+func (p *PushWindowForVerif) Load(fast, slow, nack int) (fastIDs, slowIDs, nackIDs []uuid.UUID) {
+	fill := func(n int) (chan uuid.UUID, []uuid.UUID) {
+		q := make(chan uuid.UUID, n)
+		ids := make([]uuid.UUID, n)
+		for i := range ids {
+			ids[i] = uuid.New()
+			q <- ids[i]
+		}
+		return q, ids
+	}
+	p.c.fastAckQueue, fastIDs = fill(fast)
+	p.c.slowAckQueue, slowIDs = fill(slow)
+	p.c.nackQueue, nackIDs = fill(nack)
+	return
+}
+
+func (p *PushWindowForVerif) Drain(ctx context.Context) (acks, nacks []uuid.UUID, window int, err error) {
+	req, err := p.c.Receive(ctx)
+	if err != nil {
+		return nil, nil, 0, err
+	}
+	p.c.mu.Lock()
+	defer p.c.mu.Unlock()
+	return req.Ack, req.Nack, p.c.maxMessages, nil
 }
